@@ -255,7 +255,7 @@ def opt(v):
 
 def part_determine_nk(rep, thorough, rng):
     if thorough:
-        consts = '  GROUPS = {"C1", "C4", "O", "H6", "mFe"}\n  SCALARS = {1, 2, 3, 4, 5}\n  VECTORS <- VecsB\n  RECS <- RecsB\n'
+        consts = '  GROUPS = {"C1", "C4", "O", "H6"}\n  SCALARS = {1, 2, 3, 4, 5}\n  VECTORS <- VecsB\n  RECS <- RecsB\n'
     else:
         consts = '  GROUPS = {"C1", "C4", "H6"}\n  SCALARS = {1, 2, 3}\n  VECTORS <- VecsQ\n  RECS <- RecsQ\n'
     cfg = "SPECIFICATION Spec\nCONSTANTS\n" + consts + "".join(f"INVARIANT {i}\n" for i in NK_INVS) + "CHECK_DEADLOCK FALSE\n"
@@ -277,14 +277,14 @@ def part_determine_nk(rep, thorough, rng):
         grp = s["grp"]
         pg = KS.make_system(grp).pointgroup
         per = tuple(bool(x) for x in s["periodic"])
-        a = dict(NKdiv=opt(s["NKdiv"]), NKFFT=opt(s["NKFFT"]), NK=opt(s["NK"]))
+        args = dict(NKdiv=opt(s["NKdiv"]), NKFFT=opt(s["NKFFT"]), NK=opt(s["NK"]))
         rec = vec(s["rec"])
         r = s["res"]
         kinds[r["kind"]] = kinds.get(r["kind"], 0) + 1
-        rep.case(("nk", grp, per, tuple(sorted(a.items())), rec), nontrivial=r["kind"] in ("ok", "auto"))
-        kind, d, f, ws = call_determineNK(pg, per, a["NKdiv"], a["NKFFT"], a["NK"], rec)
+        rep.case(("nk", grp, per, tuple(sorted(args.items())), rec), nontrivial=r["kind"] in ("ok", "auto"))
+        kind, d, f, ws = call_determineNK(pg, per, args["NKdiv"], args["NKFFT"], args["NK"], rec)
         expkind = "ok" if r["kind"] in ("ok", "auto") else r["kind"]
-        info = dict(group=grp, periodic=per, args=a, NKFFT_recommended=rec)
+        info = dict(group=grp, periodic=per, args=args, NKFFT_recommended=rec)
         if kind != expkind:
             rep.violation("determineNK:outcome", dict(info, expected=expkind, got=kind))
             continue
@@ -296,12 +296,12 @@ def part_determine_nk(rep, thorough, rng):
                 namb += 1
             elif (d, f) == (vec(r["div"]), vec(r["fft"])) and ws == set(r["warn"]):
                 nauto_same += 1
-            compat = all(per[a] == per[b] for (A, _, _) in KS.project_group(pg) for a in range(3) for b in range(3) if A[a][b] != 0)
+            compat = all(per[i] == per[j] for (A, _, _) in KS.project_group(pg) for i in range(3) for j in range(3) if A[i][j] != 0)
             bad = [x for x in d + f if x < 1] or [i for i in range(3) if not per[i] and (d[i] != 1 or f[i] != 1)] \
                 or (compat and not (pg.symmetric_grid(d) and pg.symmetric_grid(f)))
             if bad:
                 rep.violation("determineNK:autoNK:postcondition", dict(info, got=[d, f], spec_choice=[vec(r["div"]), vec(r["fft"])]))
-            if all(per) and (("adjusted" in ws) != (tuple(x * y for x, y in zip(d, f)) != a["NK"])):
+            if all(per) and (("adjusted" in ws) != (tuple(x * y for x, y in zip(d, f)) != args["NK"])):
                 rep.violation("determineNK:autoNK:adjusted_warning", dict(info, got=[d, f], warnings=sorted(ws)))
             continue
         if (d, f) != (vec(r["div"]), vec(r["fft"])):
@@ -345,13 +345,13 @@ def part_end_to_end(rep, done, spec_groups, thorough, rng):
     cands = sorted(k for k, v in byN.items() if len(v) >= 3 and int(np.prod(k[1])) >= 8)
     rng.shuffle(cands)
     pick = []
-    seen_grp = set()
     for k in cands:          # at most two grids per group, prefer many factorisations
         if sum(1 for g, _ in pick if g == k[0]) < (2 if thorough else 1):
             pick.append(k)
     pick = pick[:(60 if thorough else 7)]
     recs = []
     nruns = n_other = 0
+    worst = 0.0
     for grp, N in pick:
         system = KS.make_system(grp)
         G = spec_groups[grp]
@@ -382,6 +382,7 @@ def part_end_to_end(rep, done, spec_groups, thorough, rng):
                     for p in ks:
                         expect[KS.flat_index(vec(p), N)] += int(w)
                 got = res.results["oh"].data * Ntot
+                worst = max(worst, float(np.abs(got - np.rint(got)).max()))
                 if np.abs(got - expect).max() > 1e-9:
                     # other representatives / order would be fine: demanded is a non-negative integer measure whose group average is uniform
                     gi = np.rint(got)
@@ -413,7 +414,7 @@ def part_end_to_end(rep, done, spec_groups, thorough, rng):
     if nruns == 0:
         raise MachineryError("no end-to-end run was selected")
     rep.part("run_onehot", grids=[dict(group=g, N=n, factorisations=len(byN[(g, n)])) for g, n in pick], runs=nruns, tolerance=1e-9,
-             valid_but_different_from_spec_measure=n_other)
+             worst_deviation_from_integer=worst, valid_but_different_from_spec_measure=n_other)
     return recs
 
 
@@ -662,6 +663,7 @@ def check(pid, tier):
     rep = Report(pid, tier, "model_checking")
     thorough = tier == "thorough"
     rng = random.Random(seed() * 7919 + 3)
+    os.environ.setdefault("JAVA_TOOL_OPTIONS", "-Xss64m")      # TLC worker threads evaluate deep (non-tail) recursions of the sort/fold operators
     workdir("c03_run")
     workdir("c03_num")
     rep.rule("a case = one finished TLC state (group, NKdiv, NKFFT, use_symmetry) replayed on the real Grid/get_K_list/Data_K.kpoints_all, "
